@@ -1099,9 +1099,10 @@ static const uint8_t *unmarshal_one_fiber(
     JanetTable *fiber_env = NULL;
 
     /* Check for bad flags and ints */
-    if ((int32_t)(frame + JANET_FRAME_SIZE) > fiber_stackstart ||
+    if (frame > fiber_stackstart - JANET_FRAME_SIZE ||
             fiber_stackstart > fiber_stacktop ||
-            fiber_stacktop > fiber_maxstack) {
+            fiber_stacktop > fiber_maxstack ||
+            fiber_stacktop > INT32_MAX - 10) {
         janet_panic("fiber has incorrect stack setup");
     }
 
@@ -1151,7 +1152,7 @@ static const uint8_t *unmarshal_one_fiber(
         if (pcdiff >= def->bytecode_length) {
             janet_panic("fiber stackframe has invalid pc");
         }
-        if ((int32_t)(prevframe + JANET_FRAME_SIZE) > stack) {
+        if (prevframe > stack - JANET_FRAME_SIZE) {
             janet_panic("fiber stackframe does not align with previous frame");
         }
 
